@@ -121,6 +121,15 @@ Instances ==
   \cup {Inst(key, "pickle", I1, b) : key \in InstKeys \ {"I1v1@m1"}, b \in {I2, I1}}     \* (two classes share the name vfm1.I1: only one pickles)
   \cup {Inst(key, "default", a, I2) : key \in InstKeys, a \in {I1, TrueV}}
 
+\* calls of memoised functions: payload <<function key, route>>, kids = canonical positional arguments;
+\* the "hash" observed on the code is the name of the cache file
+Call(key, route, a, b) == T("call", <<key, route>>, <<a, b>>)
+FuncKeys == {"f1@m1", "f1@m2", "f1v1@m1", "f2@m1"}
+Calls ==
+     {Call(key, "pos", a, b) : key \in FuncKeys, a \in ArgA, b \in {I2, I1}}
+  \cup {Call(key, r, I1, b) : key \in FuncKeys, r \in {"kw", "mixed"}, b \in {I2, I1}}
+  \cup {Call(key, "default", a, I2) : key \in FuncKeys, a \in {I1, TrueV}}
+
 FDicts == {T("fdict", <<>>, Kids(x)) : x \in {y \in DictsOK : \A i \in DOMAIN Kids(y) : Kids(Kids(y)[i])[1] \in K3 /\ Kids(Kids(y)[i])[2] \in {I1, I2}}}
 FMS(c) == T("fms", <<>>, c)
 FMSets == {FMS(<<>>)} \cup UNION {{FMS(<<x>>), FMS(<<x, x>>), FMS(<<x, y>>), FMS(<<y, x>>), FMS(<<x, x, y>>), FMS(<<x, y, x>>),
@@ -131,7 +140,7 @@ Bufs == {T("buf", <<x[1], x[2]>>, <<>>) : x \in {<<"AB", "0">>, <<"AB", "1">>, <
                                                  <<"0ABCDEFGHIJ", "1">>, <<"ABCDEFGHIJ", "10">>}}
 
 Base == Scalars \cup NpScalars \cup Types \cup Tuples \cup Lists \cup Nesting \cup DictsOK \cup SetsOK \cup NamedTuples
-        \cup DataClasses \cup NdArrays \cup ArrayData \cup Instances \cup FDicts \cup FMSets \cup HFuncs \cup Methods \cup Bufs
+        \cup DataClasses \cup NdArrays \cup ArrayData \cup Instances \cup FDicts \cup FMSets \cup HFuncs \cup Methods \cup Bufs \cup Calls
 
 \* the values that get wrapped at Level 1: the ones with a look-alike
 WrapBase ==
@@ -170,7 +179,9 @@ WrapsAny(x) == {W_Tuple(x), W_TupleL(x), W_TupleR(x), W_List(x), W_DictVal(x), W
 WrapsHashable(x) == {W_DictKey(x), W_Set(x), W_FrozenSet(x), W_FDict(x), W_FMS(x), W_Imm(x), W_Data(x)}
 \* hashable_function(identifier) treats a callable identifier as the function to decorate
 Identifier(x) == Hashable(x) /\ Kind(x) \notin {"type", "hfunc", "method"}
-Wraps(x) == WrapsAny(x) \cup (IF Hashable(x) THEN WrapsHashable(x) ELSE {}) \cup (IF Identifier(x) THEN {W_HFunc(x)} ELSE {})
+Wraps(x) == IF Kind(x) = "call" THEN {}      \* a call is not a value
+            ELSE WrapsAny(x) \cup (IF Hashable(x) THEN WrapsHashable(x) \ (IF Reflexive(x) THEN {} ELSE {W_FMS(x)}) ELSE {})
+                 \cup (IF Identifier(x) THEN {W_HFunc(x)} ELSE {})
 
 Level1 == UNION {Wraps(x) : x \in (IF Level = 1 THEN WrapBase ELSE Base)}
 Level2 == IF Level = 1 THEN {} ELSE UNION {Wraps(y) : y \in UNION {Wraps(x) : x \in WrapBase}}
@@ -214,8 +225,10 @@ AFrozenMultisetOf == d = 0 /\ Make(FMSets)
 AHashableFunctionOf == d = 0 /\ Make(HFuncs)
 ABoundMethod == d = 0 /\ Make(Methods)
 ABuffer == d = 0 /\ Make(Bufs)
+ACachedCall == d = 0 /\ Make(Calls)
 
 Step(w) == /\ d >= 1
+           /\ Kind(v) # "call"
            /\ Wrappable(v, d - 1, adv)
            /\ v' = w
            /\ d' = d + 1
@@ -230,13 +243,13 @@ ADictKey == Hashable(v) /\ Step(W_DictKey(v))
 ASet == Hashable(v) /\ Step(W_Set(v))
 AFrozenSet == Hashable(v) /\ Step(W_FrozenSet(v))
 AFrozenDict == Hashable(v) /\ Step(W_FDict(v))
-AFrozenMultiset == Hashable(v) /\ Step(W_FMS(v))
+AFrozenMultiset == Hashable(v) /\ Reflexive(v) /\ Step(W_FMS(v))
 AImmutableArg == Hashable(v) /\ Step(W_Imm(v))
 ADataClassArg == Hashable(v) /\ Step(W_Data(v))
 AHashableFunction == Identifier(v) /\ Step(W_HFunc(v))
 
 Next == \/ AScalar \/ ANumpyScalar \/ AClass \/ ATupleOf \/ AListOf \/ ADictOf \/ ASetOf \/ ANamedTupleOf \/ ADataclassOf
-        \/ ANdArray \/ AArrayData \/ AInstance \/ AFrozenDictOf \/ AFrozenMultisetOf \/ AHashableFunctionOf \/ ABoundMethod \/ ABuffer
+        \/ ANdArray \/ AArrayData \/ AInstance \/ AFrozenDictOf \/ AFrozenMultisetOf \/ AHashableFunctionOf \/ ABoundMethod \/ ABuffer \/ ACachedCall
         \/ ATuple \/ ATupleL \/ ATupleR \/ AList \/ ADictVal \/ ANamedTuple \/ ADictKey \/ ASet \/ AFrozenSet
         \/ AFrozenDict \/ AFrozenMultiset \/ AImmutableArg \/ ADataClassArg \/ AHashableFunction
 
